@@ -21,6 +21,10 @@ theorem C06_facts : staleOfFacts = stdStale
     ∧ Receptor.Facts.route_forwarder_rewrite = true
     ∧ Receptor.Facts.route_seen_atomic = true := by decide
 
+/-- **Tie (translator)** for the expiry event of `Ev.expire`: `expireSeenUpdates` writes nothing but the seen table (entries
+deleted, under the table's lock) — in particular not the recorded stamps. -/
+theorem C06_facts_expiry : Receptor.Facts.route_expire_writes = "delete:s.seenUpdates;under:seenUpdatesLock" := by decide
+
 /-- **replay_is_noop.** An update whose ID was already seen changes nothing and produces no
 message, whatever else it contains. -/
 theorem replay_is_noop (s : NodeState) (u : Update) (recv : Node) (fresh : UpdateID)
@@ -296,5 +300,204 @@ example : (step stdStale exState (exUpd 5 50) [2] []).2
     = [.reqFlood, .reqTable, .send [3] { exUpd 5 50 with forwardingNode := [1] }] := by decide
 example : relaySteps [1] [50] (run stdStale exState [(exUpd 5 50, [2], []), (exUpd 5 50, [3], []), (exUpd 4 51, [3], [])]).2 = 1 := by
   decide
+
+/-! ### expiry of the seen table: ordinary updates are still relayed at most once -/
+
+/-- the seen table forgets any of its entries at any moment (`expireSeenUpdates`: which ones depends on the clock) -/
+def forget (s : NodeState) (keep : UpdateID → Bool) : NodeState := { s with seen := s.seen.filter keep }
+
+inductive Ev where
+  | upd (u : Update) (recv : Node) (fresh : UpdateID)
+  | expire (keep : UpdateID → Bool)
+
+def stepE (s : NodeState) : Ev → NodeState × List Action
+  | .upd u recv fresh => step stdStale s u recv fresh
+  | .expire keep => (forget s keep, [])
+
+def runE : NodeState → List Ev → NodeState × List (List Action)
+  | s, [] => (s, [])
+  | s, ev :: rest => ((runE (stepE s ev).1 rest).1, (stepE s ev).2 :: (runE (stepE s ev).1 rest).2)
+
+def ordinary : Ev → Bool
+  | .upd u _ _ => u.suspectedDuplicate == 0
+  | .expire _ => true
+
+/-- the relays, among a step's actions, of the update that origin `o` stamped `(e, q)` -/
+def relaysStamp (me o : Node) (e q : Nat) (acts : List Action) : List Action :=
+  acts.filter fun a =>
+    match a with
+    | .send _ w => w.nodeID == o && w.epoch == e && w.seq == q && w.nodeID != me
+    | _ => false
+
+def stampSteps (me o : Node) (e q : Nat) (acts : List (List Action)) : Nat :=
+  (acts.filter fun a => !(relaysStamp me o e q a).isEmpty).length
+
+theorem relaysStamp_selfStep (s : NodeState) (u : Update) (fresh : UpdateID) (o : Node) (e q : Nat) :
+    relaysStamp s.id o e q (selfStep s u fresh).2 = [] := by
+  unfold selfStep originate
+  repeat' split
+  all_goals (first | rfl | skip)
+  simp only [relaysStamp, List.filter_eq_nil_iff]
+  intro a ha
+  obtain ⟨c, rfl, _, _⟩ := mem_floodTo ha
+  simp
+
+/-- a step that relays stamp `(e, q)` of origin `o` is the step of an update with that origin and stamp, it records the
+stamp, and the stamp recorded before (if any) was older -/
+theorem relay_records_stamp (s : NodeState) (u : Update) (recv : Node) (fresh : UpdateID) (o : Node) (e q : Nat)
+    (hn : u.suspectedDuplicate = 0) (h : relaysStamp s.id o e q (step stdStale s u recv fresh).2 ≠ []) :
+    (step stdStale s u recv fresh).1.info.get? o = some (e, q) ∧
+      ∀ ni, s.info.get? o = some ni → lexLe (e, q) ni = false := by
+  unfold step at h ⊢
+  split at h
+  · exact absurd rfl h
+  · rename_i h0
+    rw [if_neg h0]
+    split at h
+    · exact absurd (relaysStamp_selfStep s u fresh o e q) h
+    · rename_i h1
+      rw [if_neg h1]
+      -- some action passes the filter
+      obtain ⟨a, ha, hp⟩ : ∃ a, a ∈ (remoteStep stdStale s u recv).2 ∧
+          (match a with
+            | .send _ w => w.nodeID == o && w.epoch == e && w.seq == q && w.nodeID != s.id
+            | _ => false) = true := by
+        cases hl : relaysStamp s.id o e q (remoteStep stdStale s u recv).2 with
+        | nil => exact absurd hl h
+        | cons a l =>
+          have : a ∈ relaysStamp s.id o e q (remoteStep stdStale s u recv).2 := by rw [hl]; simp
+          simp only [relaysStamp, List.mem_filter] at this
+          exact ⟨a, this.1, this.2⟩
+      have hstep : (step stdStale s u recv fresh).2 = (remoteStep stdStale s u recv).2 := by
+        unfold step; rw [if_neg h0, if_neg h1]
+      have hx := relay_excludes_receiver s u recv fresh h1 a (by rw [hstep]; exact ha)
+      rcases hx with hreq | ⟨c, rfl, _, _⟩
+      · cases a <;> simp [isReq] at hreq hp
+      · simp only [Bool.and_eq_true, beq_iff_eq, bne_iff_ne] at hp
+        obtain ⟨⟨⟨ho, he⟩, hq⟩, _⟩ := hp
+        subst ho he hq
+        -- which branch produced actions
+        unfold remoteStep at ha ⊢
+        split at ha
+        · simp at ha
+        · rename_i hd
+          rw [if_neg hd]
+          simp only [hn, ne_eq, not_true_eq_false, if_false, markSeen_info] at ha ⊢
+          split at ha
+          · rename_i ni hni
+            split at ha
+            · simp at ha
+            · rename_i hst
+              simp only [hni, hst]
+              refine ⟨by simp [acceptStep, KMap.get?_set_self], ?_⟩
+              intro ni' hni'
+              cases hni'
+              simp only [stale, stdStale, Bool.true_and, if_true] at hst
+              simp only [lexLe]
+              simp at hst ⊢
+              omega
+          · rename_i hni
+            simp only [hni]
+            refine ⟨by simp [acceptStep, KMap.get?_set_self], ?_⟩
+            intro ni' hni'; cases hni'
+
+theorem lexLe_trans {a b c : Nat × Nat} (h1 : lexLe a b = true) (h2 : lexLe b c = true) : lexLe a c = true := by
+  simp only [lexLe, Bool.or_eq_true, decide_eq_true_eq, Bool.and_eq_true, beq_iff_eq] at *
+  omega
+
+/-- origin `o`'s recorded stamp is at least `(e, q)` -/
+def Blocked (o : Node) (e q : Nat) (s : NodeState) : Prop := ∃ ni, s.info.get? o = some ni ∧ lexLe (e, q) ni = true
+
+theorem stepE_id (s : NodeState) (ev : Ev) : (stepE s ev).1.id = s.id := by
+  cases ev with
+  | upd u recv fresh => exact step_id _ _ _ _ _
+  | expire keep => rfl
+
+theorem blocked_stepE (o : Node) (e q : Nat) (s : NodeState) (ev : Ev) (ho : ordinary ev = true) (hb : Blocked o e q s) :
+    relaysStamp s.id o e q (stepE s ev).2 = [] ∧ Blocked o e q (stepE s ev).1 := by
+  obtain ⟨ni, hni, hle⟩ := hb
+  cases ev with
+  | expire keep => exact ⟨rfl, ni, hni, hle⟩
+  | upd u recv fresh =>
+    have hn : u.suspectedDuplicate = 0 := by simpa [ordinary] using ho
+    refine ⟨?_, ?_⟩
+    · apply Classical.byContradiction
+      intro hne
+      have := (relay_records_stamp s u recv fresh o e q hn hne).2 ni hni
+      rw [hle] at this; cases this
+    · obtain ⟨new, hnew, hle2⟩ := info_monotone s u recv fresh o hn ni hni
+      exact ⟨new, hnew, lexLe_trans hle hle2⟩
+
+theorem runE_blocked (o : Node) (e q : Nat) : ∀ (evs : List Ev) (s : NodeState), (∀ ev ∈ evs, ordinary ev = true) →
+    Blocked o e q s → stampSteps s.id o e q (runE s evs).2 = 0 := by
+  intro evs
+  induction evs with
+  | nil => intro s _ _; rfl
+  | cons ev rest ih =>
+    intro s hall hb
+    have ⟨h1, h2⟩ := blocked_stepE o e q s ev (hall ev (by simp)) hb
+    have h3 := ih (stepE s ev).1 (fun x hx => hall x (by simp [hx])) h2
+    rw [stepE_id] at h3
+    simp only [runE, stampSteps, List.filter_cons, h1, List.isEmpty_nil, Bool.not_true]
+    simpa [stampSteps] using h3
+
+/-- **relay_at_most_once_despite_expiry_partial.** In any history of ordinary updates (no suspected-duplicate notices:
+those bypass the stamp test by design) in which the seen table forgets any of its entries at any moments, a node relays
+the update that origin `o` stamped `(e, q)` in at most one step — under whatever update IDs copies of it arrive: what
+stops the second relay is the recorded stamp, which never regresses, not the seen table. -/
+theorem relay_at_most_once_despite_expiry_partial (o : Node) (e q : Nat) : ∀ (evs : List Ev) (s : NodeState),
+    (∀ ev ∈ evs, ordinary ev = true) → stampSteps s.id o e q (runE s evs).2 ≤ 1 := by
+  intro evs
+  induction evs with
+  | nil => intro s _; simp [runE, stampSteps]
+  | cons ev rest ih =>
+    intro s hall
+    have hrest : ∀ x ∈ rest, ordinary x = true := fun x hx => hall x (by simp [hx])
+    simp only [runE, stampSteps, List.filter_cons]
+    by_cases hr : relaysStamp s.id o e q (stepE s ev).2 = []
+    · simp only [hr, List.isEmpty_nil, Bool.not_true]
+      have := ih (stepE s ev).1 hrest
+      rw [stepE_id] at this
+      simpa [stampSteps] using this
+    · have hb : Blocked o e q (stepE s ev).1 := by
+        cases ev with
+        | expire keep => exact absurd rfl hr
+        | upd u recv fresh =>
+          have hn : u.suspectedDuplicate = 0 := by simpa [ordinary] using hall (.upd u recv fresh) (by simp)
+          exact ⟨(e, q), (relay_records_stamp s u recv fresh o e q hn hr).1, by simp [lexLe]⟩
+      have h0 := runE_blocked o e q rest (stepE s ev).1 hrest hb
+      rw [stepE_id] at h0
+      have : (relaysStamp s.id o e q (stepE s ev).2).isEmpty = false := by
+        cases hl : relaysStamp s.id o e q (stepE s ev).2 with
+        | nil => exact absurd hl hr
+        | cons _ _ => rfl
+      simp only [this, Bool.not_false, if_true, List.length_cons]
+      simp only [stampSteps] at h0
+      omega
+
+/-- the recorded stamps never regress in such a history either (expiry touches only the seen table) -/
+theorem info_monotone_despite_expiry (o : Node) : ∀ (evs : List Ev) (s : NodeState) (old : Nat × Nat),
+    (∀ ev ∈ evs, ordinary ev = true) → s.info.get? o = some old →
+    ∃ new, (runE s evs).1.info.get? o = some new ∧ lexLe old new = true := by
+  intro evs
+  induction evs with
+  | nil => intro s old _ h; exact ⟨old, h, by simp [lexLe]⟩
+  | cons ev rest ih =>
+    intro s old hall h
+    have hrest : ∀ x ∈ rest, ordinary x = true := fun x hx => hall x (by simp [hx])
+    obtain ⟨mid, hmid, hle⟩ : ∃ mid, (stepE s ev).1.info.get? o = some mid ∧ lexLe old mid = true := by
+      cases ev with
+      | expire keep => exact ⟨old, h, by simp [lexLe]⟩
+      | upd u recv fresh =>
+        have hn : u.suspectedDuplicate = 0 := by simpa [ordinary] using hall (.upd u recv fresh) (by simp)
+        exact info_monotone s u recv fresh o hn old h
+    obtain ⟨new, hnew, hle2⟩ := ih (stepE s ev).1 mid hrest hmid
+    exact ⟨new, by simpa [runE] using hnew, lexLe_trans hle hle2⟩
+
+/-- Non-vacuity: the update is relayed, its ID is expired from the seen table, the same update arrives again (same ID, and
+under another ID) — not relayed again; without the stamp test it would be (the seen table no longer knows it). -/
+example : stampSteps [1] [2] 7 5 (runE exState [.upd (exUpd 5 50) [2] [], .expire (fun _ => false), .upd (exUpd 5 50) [3] [],
+    .upd (exUpd 5 51) [3] []]).2 = 1
+    ∧ (runE exState [.upd (exUpd 5 50) [2] [], .expire (fun _ => false)]).1.seen = [] := by decide
 
 end Receptor.Flood
